@@ -323,6 +323,119 @@ func checkPolicy(t *core.T, sig string, mk func() *xast.Policy, desc func() stri
 	t.AddTrans(3)
 }
 
+// alternative spellings of the same JSON document: indentation, reversed member order at
+// every level, every member name with its first character as a \uXXXX escape, and the three
+// together. They are the same document to any JSON reader, so they decode to the same policy.
+func jsonSpellings(js []byte) ([]string, error) {
+	dec := json.NewDecoder(bytes.NewReader(js))
+	dec.UseNumber()
+	var v any
+	if err := dec.Decode(&v); err != nil {
+		return nil, err
+	}
+	var render func(v any, rev, esc bool, indent string, sb *strings.Builder)
+	render = func(v any, rev, esc bool, indent string, sb *strings.Builder) {
+		nl, in2 := "", ""
+		if indent != "" {
+			nl, in2 = "\n"+indent, indent+"\t"
+		}
+		switch x := v.(type) {
+		case map[string]any:
+			keys := make([]string, 0, len(x))
+			for k := range x {
+				keys = append(keys, k)
+			}
+			sort.Strings(keys)
+			if rev {
+				for i, j := 0, len(keys)-1; i < j; i, j = i+1, j-1 {
+					keys[i], keys[j] = keys[j], keys[i]
+				}
+			}
+			sb.WriteString("{")
+			for i, k := range keys {
+				if i > 0 {
+					sb.WriteString(",")
+				}
+				if indent != "" {
+					sb.WriteString("\n" + in2)
+				}
+				kb, _ := json.Marshal(k)
+				ks := string(kb)
+				if esc && len(k) > 0 && k[0] < 0x80 {
+					rest, _ := json.Marshal(k[1:])
+					ks = fmt.Sprintf("\"\\u%04x%s", k[0], rest[1:])
+				}
+				sb.WriteString(ks + ":")
+				if indent != "" {
+					sb.WriteString(" ")
+				}
+				render(x[k], rev, esc, in2, sb)
+			}
+			sb.WriteString(nl + "}")
+		case []any:
+			sb.WriteString("[")
+			for i, e := range x {
+				if i > 0 {
+					sb.WriteString(",")
+				}
+				if indent != "" {
+					sb.WriteString("\n" + in2)
+				}
+				render(e, rev, esc, in2, sb)
+			}
+			sb.WriteString(nl + "]")
+		default:
+			b, _ := json.Marshal(x)
+			sb.Write(b)
+		}
+	}
+	var out []string
+	for _, c := range []struct {
+		rev, esc bool
+		indent   string
+	}{{false, false, "\t"}, {true, false, ""}, {false, true, ""}, {true, true, " "}} {
+		var sb strings.Builder
+		if c.indent == " " {
+			sb.WriteString(" \n\t")
+		}
+		render(v, c.rev, c.esc, c.indent, &sb)
+		if c.indent != "" {
+			sb.WriteString("\n")
+		}
+		out = append(out, sb.String())
+	}
+	return out, nil
+}
+
+func checkSpellings(t *core.T, sig string, mk func() *xast.Policy) {
+	orig := cedar.NewPolicyFromAST((*publicast.Policy)(mk()))
+	js, err := orig.MarshalJSON()
+	if err != nil {
+		return
+	}
+	var base cedar.Policy
+	if base.UnmarshalJSON(js) != nil {
+		return
+	}
+	want := Canon((*xast.Policy)(base.AST()))
+	alts, err := jsonSpellings(js)
+	if err != nil {
+		t.Fail("harness-json-spelling", string(js), "valid JSON", err.Error())
+		return
+	}
+	for k, a := range alts {
+		var p cedar.Policy
+		if err := p.UnmarshalJSON([]byte(a)); err != nil {
+			t.Fail(fmt.Sprintf("json-spelling-rejected:%d:%s", k, sig), a, "decodes like "+string(js), err.Error())
+			continue
+		}
+		if got := Canon((*xast.Policy)(p.AST())); got != want {
+			t.Fail(fmt.Sprintf("json-spelling-decodes-differently:%d:%s", k, sig), a, want, got)
+		}
+	}
+	t.AddTrans(int64(len(alts)))
+}
+
 // dirtyPolicy: a policy with every part populated, used as a decode target that is not the zero value.
 func dirtyPolicy() *publicast.Policy {
 	p := xast.Forbid().Annotate("zz", "old").Annotate("id", "old").PrincipalIs("Old").ActionInSet(types.NewEntityUID("Old", "a")).ResourceEq(types.NewEntityUID("Old", "r")).
@@ -463,6 +576,9 @@ func depth2(lv []*Expr) *core.Family {
 				e := cb.p.Build(pargs)
 				last = e
 				checkExpr(t, cb.p.Name+"/"+cb.c.Name, e)
+				if jsonExpressible(e) {
+					checkSpellings(t, cb.p.Name+"/"+cb.c.Name, func() *xast.Policy { return xast.Permit().When(e.ToAST()) })
+				}
 			}
 			if last != nil {
 				t.SampleF(last.String)
@@ -585,6 +701,7 @@ func heads() *core.Family {
 			x /= len(annots)
 			p.Conds = conds[x]
 			checkPolicy(t, "head", p.ToAST, func() string { return fmt.Sprintf("%+v", *p) }, true)
+			checkSpellings(t, "head", p.ToAST)
 			t.AddStates(1)
 			t.Nontrivial()
 			t.SampleF(func() string {
